@@ -9,7 +9,12 @@
 (*                       every IQ result/error stanza the client sent after   *)
 (*                       the injection, until the event loop was drained      *)
 (*   "oreq":n,           other stanzas sent (requests of a manager's own, ...) *)
-(*   "closed":bool}      the client reported a stream error                   *)
+(*   "closed":bool,      the client reported a stream error                   *)
+(*   "pend":bool,        a tracked request of the client's own was outstanding *)
+(*   "tdone":n}          continuation runs of that request during this step    *)
+(* and one line per tracked request the harness made the client issue:        *)
+(*  {"e":"SendRequest","peer":sender class,"x":{"id":..,"to":..},"nsent":n}   *)
+(* (lines of older traces without pend/tdone are read as pend=FALSE, tdone=0)  *)
 (* t/p/f/k and x are inputs chosen by the harness; out/oreq/closed are the    *)
 (* observation.                                                              *)
 (*                                                                          *)
@@ -25,14 +30,17 @@ EXTENDS IqDispatch, Integers, Json, CSV, IOUtils
 
 TraceLog == ndJsonDeserialize(IOEnv.QXV_TRACE)
 
-VARIABLES l, cid, viol, nviol, ndiv, divs, dflag, ncases, nreq, nresp, nother, nclosed
+VARIABLES l, cid, viol, nviol, ndiv, divs, dflag, ncases, nreq, nresp, nother, nclosed,
+          npend, ncollide, ntdone, ntbyreq
 
-tvars == <<vars, l, cid, viol, nviol, ndiv, divs, dflag, ncases, nreq, nresp, nother, nclosed>>
+tvars == <<vars, l, cid, viol, nviol, ndiv, divs, dflag, ncases, nreq, nresp, nother, nclosed,
+           npend, ncollide, ntdone, ntbyreq>>
 
 TInit ==
     /\ Init /\ ext = "none"
     /\ l = 1 /\ cid = "" /\ viol = {} /\ nviol = 0 /\ ndiv = 0 /\ divs = <<>> /\ dflag = FALSE /\ ncases = 0
     /\ nreq = 0 /\ nresp = 0 /\ nother = 0 /\ nclosed = 0
+    /\ npend = 0 /\ ncollide = 0 /\ ntdone = 0 /\ ntbyreq = 0
 
 (* --- facts derived from one logged line ----------------------------------- *)
 \* A reply without `to` is handled by the user's server on behalf of the account: it reaches a
@@ -48,30 +56,42 @@ Failed(ev) ==
           [] p = "ResponseNotAnswered" -> ~P_ResponseNotAnswered(ev.t, n)
           [] p = "NoReplyLoop"         -> ~P_NoReplyLoop(ev.t, n)}
 
-Obs(ev) == [replies |-> Replies(ev), closed |-> ev.closed]
-Proj    == [replies |-> last.replies, closed |-> ~open]
+TDone(ev) == IF "tdone" \in DOMAIN ev THEN ev.tdone ELSE 0
+HadPending(ev) == "pend" \in DOMAIN ev /\ ev.pend
+Obs(ev) == [replies |-> Replies(ev), closed |-> ev.closed, tdone |-> TDone(ev) > 0]
+Proj    == [replies |-> last.replies, closed |-> ~open, tdone |-> last.tdone]
 
 ModelAct(ev) ==
-    CASE ev.e = "Recv" -> Recv(ev.t, ev.p, ev.f, ev.k)
-      [] OTHER         -> FALSE
+    CASE ev.e = "Recv"        -> Recv(ev.t, ev.p, ev.f, ev.k)
+      [] ev.e = "SendRequest" -> SendRequest(ev.peer)
+      [] OTHER                -> FALSE
 
 ResetStep(ev) ==
     /\ Reinit(ev.ext)
     /\ cid' = ev.case /\ dflag' = FALSE /\ ncases' = ncases + 1
-    /\ UNCHANGED <<viol, nviol, ndiv, divs, nreq, nresp, nother, nclosed>>
+    /\ UNCHANGED <<viol, nviol, ndiv, divs, nreq, nresp, nother, nclosed, npend, ncollide, ntdone, ntbyreq>>
 
 OpStep(ev) ==
     /\ \/ ModelAct(ev)
        \/ (~ENABLED ModelAct(ev)) /\ UNCHANGED vars
-    \* one record per (property, extension set, type, payload, sender class): the first line that shows it
-    /\ viol' = viol \cup {[case |-> cid, line |-> l, prop |-> p, ext |-> ext, t |-> ev.t, p |-> ev.p, f |-> ev.f, k |-> ev.k,
-                           n |-> Replies(ev)] :
-                              p \in {q \in Failed(ev) : ~\E v \in viol : v.prop = q /\ v.ext = ext /\ v.t = ev.t /\ v.p = ev.p /\ v.f = ev.f}}
+    \* one record per (property, extension set, type, payload, sender class, id collides with an outstanding
+    \* request): the first line that shows it
+    /\ LET coll == HadPending(ev) /\ ev.k = "pending" IN
+       viol' = viol \cup {[case |-> cid, line |-> l, prop |-> p, ext |-> ext, t |-> ev.t, p |-> ev.p, f |-> ev.f, k |-> ev.k,
+                           coll |-> coll, peer |-> pending, n |-> Replies(ev)] :
+                              p \in {q \in Failed(ev) : ~\E v \in viol : v.prop = q /\ v.ext = ext /\ v.t = ev.t /\ v.p = ev.p
+                                                                           /\ v.f = ev.f /\ v.coll = coll}}
     /\ nviol' = nviol + Cardinality(Failed(ev))
     /\ nreq' = nreq + (IF ev.t \in Req THEN 1 ELSE 0)
     /\ nresp' = nresp + (IF ev.t \in Resp THEN 1 ELSE 0)
     /\ nother' = nother + (IF ev.t \notin (Req \cup Resp) THEN 1 ELSE 0)
     /\ nclosed' = nclosed + (IF ev.closed THEN 1 ELSE 0)
+    /\ UNCHANGED npend
+    \* IQs injected with the id of an outstanding request of the client / task completions / completions
+    \* caused by something that is not a response (observation only: that clause belongs to C07)
+    /\ ncollide' = ncollide + (IF HadPending(ev) /\ ev.k = "pending" THEN 1 ELSE 0)
+    /\ ntdone' = ntdone + TDone(ev)
+    /\ ntbyreq' = ntbyreq + (IF ~P_TaskOnlyByResponse(ev.t, TDone(ev) > 0) THEN 1 ELSE 0)
     /\ LET d == Proj' # Obs(ev) IN
         /\ dflag' = (dflag \/ d)
         /\ ndiv' = IF d /\ ~dflag THEN ndiv + 1 ELSE ndiv
@@ -80,17 +100,27 @@ OpStep(ev) ==
                                       model |-> Proj', impl |-> Obs(ev)]) ELSE divs
     /\ UNCHANGED <<cid, ncases>>
 
+\* the harness made the client issue a tracked request: the model follows, nothing is judged
+ReqStep(ev) ==
+    /\ \/ ModelAct(ev)
+       \/ (~ENABLED ModelAct(ev)) /\ UNCHANGED vars
+    /\ npend' = npend + 1
+    /\ UNCHANGED <<cid, viol, nviol, ndiv, divs, dflag, ncases, nreq, nresp, nother, nclosed, ncollide, ntdone, ntbyreq>>
+
 TNext ==
     /\ l <= Len(TraceLog)
     /\ l' = l + 1
     /\ LET ev == TraceLog[l] IN
         IF ev.e = "Reset" THEN ResetStep(ev)
         ELSE IF ev.e = "Recv" THEN OpStep(ev)
-        ELSE UNCHANGED <<vars, cid, viol, nviol, ndiv, divs, dflag, ncases, nreq, nresp, nother, nclosed>>
+        ELSE IF ev.e = "SendRequest" THEN ReqStep(ev)
+        ELSE UNCHANGED <<vars, cid, viol, nviol, ndiv, divs, dflag, ncases, nreq, nresp, nother, nclosed,
+                         npend, ncollide, ntdone, ntbyreq>>
 
 TSpec == TInit /\ [][TNext]_tvars
 
 Summary == [cases |-> ncases, lines |-> l - 1, viol |-> viol, nviol |-> nviol, ndiv |-> ndiv, divs |-> divs,
-            requests |-> nreq, responses |-> nresp, othertype |-> nother, closed |-> nclosed]
+            requests |-> nreq, responses |-> nresp, othertype |-> nother, closed |-> nclosed,
+            tracked |-> npend, idcollisions |-> ncollide, taskdone |-> ntdone, taskdonebyrequest |-> ntbyreq]
 Done == l <= Len(TraceLog) \/ CSVWrite("%1$s", <<ToJson(Summary)>>, IOEnv.QXV_SUMMARY)
 =============================================================================
